@@ -17,7 +17,7 @@ CFG = {
             "in-memory bit-vector server that drops deliveries (filters with nil clauses, empty groups, odd-length clauses; begin>end; section "
             "edges), and filters.Filter.Logs over chains built with core.GenerateChain (+receipts, bloom-bits index committed with the real "
             "Generator and WriteBloomBits) with logs clustered at section/byte edges, index progress 0..all sections, ranges with open ends (-1), "
-            "beyond the head, empty, ending/beginning exactly at section multiples that hold matching logs, and straddling the indexed boundary. Each result is also judged in Go against a brute-force scan. "
+            "beyond the head, empty, ending/beginning exactly at section multiples that hold matching logs, and straddling the indexed boundary. The stored form of the index is exercised separately: bitutil compress/decompress vectors whose encoding is len-1/len/len+1 by construction, a chain whose busy contracts log in 218/219/220 of the 256 eight-block groups of a section, and the real core.ChainIndexer with a reorg landing mid-section. Each result is also judged in Go against a brute-force scan. "
             "Non-trivial = the real code returned a non-empty / positive answer (distinct inputs counted).",
     "tie": {"types.bloom9 (Bloom9)": "corr", "types.LogsBloom/CreateBloom/BytesToBloom": "corr", "types.BloomLookup, Bloom.TestBytes (both must be positive for every covered item, leading zero bytes included)": "corr + direct judgement",
             "filters.bloomFilter, filters.filterLogs": "corr (overlay accessor) + direct judgement",
@@ -25,8 +25,9 @@ CFG = {
             "bloombits.Generator NewGenerator/AddBloom/Bitset": "corr (sessions) + direct transposition judgement; limits regenerated (T-gen bloom)",
             "bloombits.Matcher (NewMatcher, Start, run, subMatch, distributor, MatcherSession.*), scheduler": "corr on the session's input/output function only (goroutine pipeline not modelled)",
             "filters.New, Filter.Logs/indexedLogs/unindexedLogs/checkMatches": "corr + direct judgement vs brute force",
-            "aqua.BloomIndexer Process/Commit, aqua.startBloomHandlers": "replicated in the harness (package aqua links cgo duktape): Generator + WriteBloomBits(CompressBytes) / GetBloomBits + DecompressBytes",
-            "core.ChainIndexer": "modelled as the parameter `sections` with sections*size <= head+1; its event loop is not exercised",
+            "aqua.BloomIndexer Process/Commit, aqua.startBloomHandlers": "replicated in the harness (package aqua links cgo duktape) exactly as written: Generator + core.WriteBloomBits(.., bitutil.CompressBytes(bits)) / core.GetBloomBits + bitutil.DecompressBytes(comp, size/8)",
+            "bitutil.CompressBytes/DecompressBytes (bitsetEncodeBytes, bitsetDecodePartialBytes)": "corr (cases cz, dz incl. malformed encodings) + direct round-trip judgement around the break-even density; theorems decompress_compress, stored_vectors_roundtrip",
+            "core.ChainIndexer (Start/eventLoop/newHead/updateLoop/processSection)": "the real indexer is run with a ChainIndexerBackend that replicates BloomIndexer plus a hook: a reorg lands between two headers of the section walk; Filter.Logs then judged vs brute force over the final canonical chain. processSection's continuity check is modelled (walkSection/processSection; theorem section_commit_requires_contiguous_headers); elsewhere index progress is the parameter `sections` with sections*size <= head+1",
             "types.BloomByteLength/BloomBitLength, params.BloomBitsBlocks(+Client)": "gen (theorems constants_agree, deployed_section_sizes_accepted)"},
     "assumptions": ["Go runtime, math/big and Keccak-256 are modelled, not verified (DESIGN.md 2.5); theorems hold for an arbitrary hash function",
                     "header.Bloom = CreateBloom(receipts) for every canonical block (enforced by BlockValidator.ValidateState; checked on every generated block)",
@@ -36,7 +37,7 @@ CFG = {
 }
 META = {
     "technique": "Lean 4 proof (no false negatives, transposition, matcher = bloomFilter, Filter.Logs = brute force; unbounded) tied to core/types, core/bloombits and aqua/filters by differential correspondence",
-    "text": "Theorems bloom_no_false_negative, testBytes_no_false_negative, bloomFilter_sound, indexes_agree, transpose_spec, matcher_spec, extraction_spec, matcher_session_spec_partial and "
+    "text": "Theorems bloom_no_false_negative, testBytes_no_false_negative, bloomFilter_sound, indexes_agree, transpose_spec, matcher_spec, extraction_spec, decompress_compress, stored_vectors_roundtrip, section_commit_requires_contiguous_headers, matcher_session_spec_partial and "
             "logs_exact hold in the Lean model for every hash function, log set, criteria, block range (open ends, straddling the indexed boundary), every "
             "section size the generator accepts and every index progress; every run re-proves them, regenerates the bloom constants and generator limits "
             "from the compiled packages, and runs the real CreateBloom/BloomLookup, Generator, Matcher sessions and Filter.Logs against the compiled model "
